@@ -10,7 +10,7 @@ FP = {'echs_evstrm_pop.function_pointer_call.1': ['arr_next'], 'echs_evstrm_next
       'free_echs_evstrm.function_pointer_call.1': ['arr_free']}
 def ob(name, defs, **kw):
     o = dict(name=name, src='h_filt.c', defs=defs, units=[], incl=['src/evfilt.c'], replay_units='all',
-             unwind=5, solver='cadical', timeout=600, mem_gb=10, restrict_fp=FP,
+             unwind=5, solver='minisat', slice_formula=True, timeout=800, mem_gb=6, restrict_fp=FP,
              checks=['--bounds-check', '--pointer-check'], excludes=['C02-2'],
              enc=['next_evfilt', 'make_evfilt', 'echs_range_overlaps_p', 'echs_range_precedes_p', 'echs_event_range', 'echs_instant_lt_p'],
              sym='number and instants of occurrences and exceptions, duration, date vs date-time, peek/pop schedule',
